@@ -27,6 +27,7 @@ EXPLANATION = ("a: contains_timestamp, events_in_range, the sliding filter of Wi
                "filtered length; min/max fold with f64::min/f64::max. f: a `while cursor <= bound` loop must add a value that is "
                "provably >= 1 to the cursor.")
 FLOORS = {"membership_predicates": 4, "aligned_starts": 3, "aggregates": 4}
+EXPLANATION += ' c (added): in record the eviction of out-of-window events dominates the retention-cap loop (the cap may only cut in-window events).'
 
 TW = "streaming::window::TimeWindow"
 
